@@ -273,8 +273,9 @@ class Tok:
 class PStr:
     """parsed JSON string: SBytes (decoded)"""
 
-    def __init__(self, s):
+    def __init__(self, s, escaped=False):
         self.s = s
+        self.escaped = escaped      # the JSON text contained an escape sequence (cannot be borrowed as &str)
 
 
 class PNum:
@@ -365,6 +366,7 @@ def parse_string(tok):
     assert tok.next() == 0x22
     out = []
     cur = bytearray()
+    escaped = False
     while True:
         c = tok.next()
         if c is None:
@@ -380,6 +382,7 @@ def parse_string(tok):
         if c < 0x20:
             raise JsonSyntaxError("control character in string")
         if c == 0x5C:
+            escaped = True
             e = tok.next()
             m = {0x22: 0x22, 0x5C: 0x5C, 0x2F: 0x2F, 0x62: 8, 0x66: 12, 0x6E: 10, 0x72: 13, 0x74: 9}
             if e in m:
@@ -417,7 +420,7 @@ def parse_string(tok):
                 seg.decode("utf-8")
             except UnicodeDecodeError:
                 raise JsonSyntaxError("invalid utf-8 in string")
-    return PStr(s)
+    return PStr(s, escaped)
 
 
 def to_jsonvalue(p):
@@ -465,10 +468,17 @@ def decode_typed(I, p, ty):
         if isinstance(p, tuple) and p[0] == "lit" and p[1] is None:
             return NONE()
         return SOME(decode_typed(I, p, inner))
-    if base == "String":
+    if base == "String" or (base == "Cow" and "str" in ty):
         if not isinstance(p, PStr):
             raise DeError("expected string")
         return mk_string(p.s)
+    if ty.startswith("&") and ty.split()[-1] == "str":
+        # a borrowed &str can only be produced from JSON text without escape sequences
+        if not isinstance(p, PStr):
+            raise DeError("expected string")
+        if p.escaped:
+            raise DeError("invalid type: string, expected a borrowed string")
+        return BytesRef(p.s, "str")
     if base in INT_RANGES:
         if not isinstance(p, PNum):
             raise DeError("expected number")
@@ -514,7 +524,7 @@ def decode_typed(I, p, ty):
 def struct_decl(I, name):
     """[(field, type)] from the current source."""
     for path, text in I.src.files.items():
-        m = re.search(r"\bstruct\s+%s\s*\{" % re.escape(name), text)
+        m = re.search(r"\bstruct\s+%s\s*(?:<[^>{]*>)?\s*\{" % re.escape(name), text)
         if not m:
             continue
         depth, j = 0, m.end() - 1
